@@ -812,7 +812,13 @@ func mixedBatchFaults(pageSize uint32, seed uint64, c map[string]int) (v *harnes
 			fault := simdisk.Fault{Kind: simdisk.CallWrite, Ordinal: k, Burst: 1, Mode: mode}
 			d.Arm(&fault)
 			d.Release()
-			err = tx2.Commit()
+			cres := make(chan error, 1)
+			go func() { cres <- tx2.Commit() }()
+			select {
+			case err = <-cres:
+			case <-time.After(30 * time.Second):
+				return &harness.Violation{Clause: "hang", Item: -1, Msg: fmt.Sprintf("mixed writer batch, failing write #%d (mode %d): Commit of the second transaction does not return", k, mode)}
+			}
 			c["mixed-batch-runs"]++
 			d.Arm(nil)
 			f.VerifDrainWriter()
